@@ -14,6 +14,8 @@ TEXT_POOL = list("abc XYZ09.,-_()=;:!?'\"\\{}|éЖ中 ")
 
 
 def gen_text(rng, maxlen=6):
+    if rng.random() < 0.08:
+        return rng.choice([" ", "  ", " \u00a0", "\u3000"])      # text that is nothing but blank(s)
     while True:
         s = "".join(rng.choice(TEXT_POOL) for _ in range(rng.randint(1, maxlen)))
         if not s.endswith("\\"):
